@@ -32,6 +32,10 @@ struct Case {
     /// twice and the bindings are generated from the second analysis
     #[serde(default)]
     library_twice: bool,
+    /// types the project defines outside the model (raw source text): a schema constant named
+    /// after one of them that is read but never defined is judged like any other
+    #[serde(default)]
+    extra_types: Vec<String>,
 }
 
 /// The public API used by a caller that keeps its analyzer: mirror of generate_from_config,
@@ -300,12 +304,33 @@ impl Check for C09 {
             }
             items.push(Item::Cmd(c));
         }
+        // a serde struct holding a runtime handle of a NON-serde type behind `#[serde(skip)]`, with
+        // further serde attributes on the same field in attributes of their own (every thirteenth world)
+        let mut extra_types: Vec<String> = vec![];
+        if i % 13 == 6 {
+            let mut hr = r.split("skipped-handle");
+            let n = hr.range(1, 9999);
+            let second = *hr.pick(&["#[serde(default)]", "#[serde(default = \"fresh_handle\")]", "#[serde(rename = \"h\")]"]);
+            items.push(Item::Raw(format!(
+                "pub struct ConnHandle{n} {{\n    pub fd: i32,\n}}\n\n#[derive(Debug, Clone, Serialize, Deserialize)]\npub struct Session{n} {{\n    pub id: u32,\n    #[serde(skip)]\n    {second}\n    pub handle: ConnHandle{n},\n    #[serde(default)]\n    #[serde(skip_serializing_if = \"Option::is_none\")]\n    pub note: Option<String>,\n}}\n\n#[tauri::command]\npub fn open_session_{n}(session: Session{n}) -> u32 {{\n    session.id\n}}\n",
+                n = n,
+                second = second
+            )));
+            extra_types.push(format!("ConnHandle{}", n));
+            extra_types.push(format!("Session{}", n));
+        }
         r.shuffle(&mut items);
         let nf = r.range(1, 4);
         let mut files: Vec<SrcFile> = FILES[..nf].iter().map(|p| SrcFile { path: p.to_string(), items: vec![] }).collect();
         for it in items {
             let k = r.below(nf as u64) as usize;
             files[k].items.push(it);
+        }
+        // file and directory names that merely START like the ones a scan skips (target/, .git/)
+        if i % 11 == 4 {
+            let mut fr = r.split("file-names");
+            let k = fr.below(nf as u64) as usize;
+            files[k].path = fr.pick(&["src/targets.rs", "src/target_kinds/mod.rs", "src/targeting/rules.rs", "src/.github_sync/hooks.rs", "src/targetless.rs"]).to_string();
         }
         // a new edge between two existing types (index order is a topological order, so
         // "higher depends on lower" keeps the graph acyclic)
@@ -347,7 +372,7 @@ impl Check for C09 {
         let mut pr = r.split("procs");
         let procs = (0..s_runs).map(|_| gen_proc(&mut pr)).collect();
         let library_twice = i % 8 == 3;
-        serde_json::to_value(Case { model: Model { files }, cfg, setup, procs, edges, shape: shape.into(), add_edge, library_twice }).unwrap()
+        serde_json::to_value(Case { model: Model { files }, cfg, setup, procs, edges, shape: shape.into(), add_edge, library_twice, extra_types }).unwrap()
     }
 
     fn exec(&self, env: &mut Env, case: &Value) -> CaseOut {
@@ -447,7 +472,8 @@ impl Check for C09 {
                             // token the translator garbled, or a type the project does not define,
                             // is somebody else's business (C05 / C07)
                             let mb = m.trim_end_matches("Schema");
-                            let live_types: BTreeSet<String> = if *is_phase2 { model2.serde_type_names() } else { c.model.serde_type_names() }.into_iter().collect();
+                            let mut live_types: BTreeSet<String> = if *is_phase2 { model2.serde_type_names() } else { c.model.serde_type_names() }.into_iter().collect();
+                            live_types.extend(c.extra_types.iter().cloned());
                             if live_types.contains(mb) {
                                 co.violate(
                                     "C09/read-never-defined".into(),
